@@ -7,6 +7,7 @@
 
 mod capture;
 mod chunk;
+mod lex;
 mod run;
 mod session;
 mod syntax;
@@ -56,6 +57,7 @@ fn main() {
             "run" => run::run_job(&job),
             "session" => session::session_job(&job),
             "chunk" => chunk::chunk_job(&job),
+            "lex" => lex::lex_job(&job),
             "compile" => syntax::compile_job(&job),
             "parse" => syntax::parse_job(&job),
             "format" => syntax::format_job(&job),
